@@ -243,6 +243,8 @@ class Service:
         logger.info(f"Search for service {self.short_sid} successfully.")
 
     def close_service(self):
+        if self.get_current_service_state() == SERVICE_STATE.NOT_EXISTS:
+            return  # nothing was accepted: do not record a state for a (possibly half-created) service directory
         self._store_service_meta()
 
     async def wait_closed(self):
